@@ -16,9 +16,10 @@ A4 = "A4: fewer than 2^32 fragments per FragmentedMuxer"
 A5 = "A5: fewer than 2^64 frames per muxer (frame counters)"
 SINK = "the sink is environment: std::io::Write::write_all is assumed to append all of the buffer or to fail after a prefix (prelude/sink.vrs); the muxer only ever calls write_all"
 FLOAT = "IEEE-754 doubles are uninterpreted in Verus (prelude/f64.vrs); their arithmetic facts are established by the Kani harnesses k_ticks_nearest (complete) and kb_ticks_monotone / kb_stats_secs (bounded)"
-BOUNDED_LEAVES = ("two leaf contracts are assumed in unit layout and checked on the unmodified functions only by BOUNDED Kani harnesses: "
-                  "SampleTables::from_samples (0..3 samples) and compute_interleave_schedule (up to 2 video + 2 audio samples); "
-                  "iterator-adapter chains and sort_by_key are outside Verus")
+BOUNDED_LEAVES = ("std models: the iterator-adapter chains of SampleTables::from_samples are rewritten to loops by rule R8 (std semantics of "
+                  "iter/map/filter_map/collect assumed) and std's slice sort in compute_interleave_schedule is modelled by its documented postcondition "
+                  "(sorted permutation; unit sched); BOUNDED Kani harnesses additionally run the UNMODIFIED functions (from_samples 0..3 samples, "
+                  "schedule up to 2 video + 2 audio samples)")
 
 SCHED = ['kb_schedule_1v1a', 'kb_schedule_2v1a', 'kb_schedule_1v2a']
 SCHED_T = ['kb_schedule_2v2a']
@@ -48,11 +49,11 @@ PROPS = {
     },
     'C03': {
         'title': 'Decode and composition timing in the file equals the submitted timestamps',
-        'technique': 'Verus: writer representation invariant (exact DTS distances), stts/ctts run-length round trip, mdhd duration = sum; Kani for the tick rounding and the from_samples leaf',
+        'technique': 'Verus: writer representation invariant (exact DTS distances), stts/ctts run-length round trip, mdhd duration = sum; Kani (complete, all f64 bit patterns) for the tick conversion on the real Muxer::write_video(_with_dts)',
         'text': 'The writer invariant track_wf (every sample but the last carries the exact distance to its successor, computed from absolute ticks) is proved for all call histories; the stts/ctts builders are proved to be '
                 'the maximal run-length encoding whose expansion is the duration list; the public calls are proved to hand ticks(pts)/ticks(dts) unchanged to the writer.',
         'note': FLOAT + '; ' + BOUNDED_LEAVES,
-        'kani': FROMS + ['kb_total_duration', 'kb_total_duration_fits'], 'kani_thorough': FROMS_T + ['k_ticks_nearest', 'kb_ticks_monotone'],
+        'kani': FROMS + ['kb_total_duration', 'kb_total_duration_fits', 'k_api_ticks_video', 'k_api_ticks_second_frame'], 'kani_thorough': FROMS_T + ['k_ticks_nearest', 'kb_ticks_monotone'],
         'assumptions': [FLOAT, BOUNDED_LEAVES],
     },
     'C04': {
@@ -70,7 +71,7 @@ PROPS = {
         'text': 'Whole-state equality on every error exit of Mp4Writer::write_video_sample(_with_dts)/write_audio_sample, Muxer::write_video/write_video_with_dts/write_audio/encode_* and FragmentedMuxer::write_video, '
                 'proved on the extracted real text; every later decision, statistic and output byte is a function of that state.',
         'note': A3,
-        'kani': [], 'assumptions': [A3],
+        'kani': [], 'kani_thorough': ['k_api_ticks_video', 'k_api_ticks_second_frame'], 'assumptions': [A3],
     },
     'C06': {
         'title': 'Finalisation happens exactly once and accounts for every byte and frame',
